@@ -22,8 +22,7 @@ class Ctx:
         args = []
         if "case" in rp:
             args += ["--case", str(rp["case"])]
-        if "leg" in rp:
-            args += ["--leg", str(rp["leg"])]
+
         return args
 
     def harness(self, extra=(), result="result.json", timeout=None, prop=None):
@@ -149,6 +148,23 @@ def c04(ctx):
     return merged
 
 
+def legs(*names):
+    """Pipeline made of several harness legs selected with --leg."""
+    def run(ctx):
+        want = None
+        if ctx.replay:
+            want = (json.load(open(ctx.replay)).get("replay") or {}).get("leg")
+        rs = []
+        for i, n in enumerate(names):
+            if want and n != want and not (want is None):
+                continue
+            if ctx.replay and not want and i > 0:
+                continue
+            rs.append(ctx.harness(extra=["--leg", n], result="%s.json" % n))
+        return ctx.chk.merge(rs)
+    return run
+
+
 def c02(ctx):
     r = ctx.harness()
     merged = ctx.chk.merge([r])
@@ -172,4 +188,5 @@ PROPS = {
     "C06": {"run": simple, "level": "exploration"},
     "C07": {"run": simple, "level": "exploration"},
     "C08": {"run": simple, "level": "exploration"},
+    "C09": {"run": legs("tables", "files"), "level": "exploration"},
 }
